@@ -43,10 +43,11 @@ class Tape:
 
 
 class Gen:
-    def __init__(self, tape, ir_version=None):
+    def __init__(self, tape, ir_version=None, gen=1):
         self.t = tape
         self.n = 0
         self.ir_version = ir_version
+        self.gen = gen  # generator version: stored replay cases (no "gen" field) keep decoding with version 1
 
     def fresh(self, prefix="v"):
         self.n += 1
@@ -357,6 +358,28 @@ class Gen:
                 if self.t.flag():
                     e = qa.quant_parameter_tensor_names.add()
                     e.key, e.value = "ZERO_POINT_TENSOR", self.fresh("zp")
+        if self.gen >= 2:
+            # value_info entries for initializers that are not graph inputs (every exporter that ran shape inference
+            # writes them): same element type and dims as the tensor, optionally with dimension / type denotations
+            input_names = {i.name for i in gp.input} | {o.name for o in gp.output} | {v.name for v in gp.value_info}
+            seen_init = set()
+            for tp in gp.initializer:
+                if tp.name in seen_init:
+                    continue
+                seen_init.add(tp.name)
+                # one value, one description: not for values the graph already describes (inputs, outputs, value_info)
+                if tp.name and tp.name not in input_names and tp.data_type and self.t.flag("initializer_value_info", 3):
+                    vi = gp.value_info.add()
+                    vi.name = tp.name
+                    vi.type.tensor_type.elem_type = tp.data_type
+                    vi.type.tensor_type.shape.SetInParent()
+                    for dv in tp.dims:
+                        d = vi.type.tensor_type.shape.dim.add()
+                        d.dim_value = dv
+                        if self.t.flag("initializer_dim_denotation", 2):
+                            d.denotation = ["DATA_BATCH", "DATA_CHANNEL", "x"][self.t.pick(3)]
+                    if self.t.flag(None, 4):
+                        vi.doc_string = self.text()
         return own + produced
 
     def function(self, fp, ir_version):
@@ -466,12 +489,46 @@ class Gen:
                             elif k == 1:
                                 ss.dim_param = "N"
                             ss.num_shards = 1 + self.t.pick(3)
+            if self.gen >= 2:
+                # version 2: nodes of nested graphs and of function bodies carry annotations too, and a node may hold a
+                # second entry whose configuration_id is not declared on the model (kept as it is by a round trip)
+                def deep(graph_like):
+                    for node in graph_like.node:
+                        yield node
+                        for at in node.attribute:
+                            if at.type == onnx.AttributeProto.GRAPH and at.HasField("g"):
+                                yield from deep(at.g)
+                            for sg in at.graphs:
+                                yield from deep(sg)
+
+                nested = [n for top in mp.graph.node for at in top.attribute for n in ([] if not (at.HasField("g") or at.graphs) else
+                          ([x for x in deep(at.g)] if at.HasField("g") else []) + [x for sg in at.graphs for x in deep(sg)])]
+                nested += [n for f in mp.functions for n in deep(f)]
+                for node in nested:
+                    if not self.t.flag("nested_device_configuration", 3):
+                        continue
+                    c = cfgs[self.t.pick(len(cfgs))]
+                    dc = node.device_configurations.add()
+                    dc.configuration_id = c.name
+                    if self.t.flag():
+                        dc.pipeline_stage = self.t.pick(3)
+                    names = [n for n in list(node.input) + list(node.output) if n]
+                    if names and self.t.flag():
+                        sp = dc.sharding_spec.add()
+                        sp.tensor_name = names[self.t.pick(len(names))]
+                        sp.device.extend(list(range(self.t.pick(c.num_devices + 1))))
+                for node in list(mp.graph.node) + nested:
+                    if node.device_configurations and self.t.flag("undeclared_second_configuration", 4):
+                        dc = node.device_configurations.add()
+                        dc.configuration_id = "cfg_not_declared"
+                        if self.t.flag():
+                            dc.pipeline_stage = 1
         return mp
 
 
-def build_model(ints, ir_version=None):
+def build_model(ints, ir_version=None, gen=1):
     tape = Tape(ints)
-    g = Gen(tape, ir_version)
+    g = Gen(tape, ir_version, gen)
     mp = g.model()
     return mp, tape.features
 
